@@ -197,7 +197,7 @@ def concrete(cfg, rng):
     d = {'types': T, 'kT': float(rng.choice([1.0, 1.5, 0.8])), 'dr': dr, 'length': length, 'rho': rho,
          'diam': {t: [1.0, 1.0, 1.5][i] for i, t in enumerate(T)}, 'pot': {}, 'clo': {}, 'omega': {},
          'assign': str(rng.choice(['group', 'pair', 'setunset'])), 'diam_idiom': str(rng.choice(['direct', 'sweep'])),
-         'num_style': str(rng.choice(['float', 'np', 'int']))}
+         'num_style': str(rng.choice(['float', 'np', 'int'])), 'reuse': bool(rng.random() < 0.4)}
     for a, b in systems.pairs(T):
         key = '%s-%s' % (a, b)
         d['pot'][key] = POT[cfg['pot']](a, b)
@@ -261,7 +261,7 @@ def solved(ctx, thorough, terms_path):
                 except Exception:
                     ctx.skip('solve raised (not judged)')
                     break
-                ev = prism_eval.evaluate(P)
+                ev = prism_eval.evaluate(P, spec=c)          # the oracle works from the description the System was built from
                 if not ev['judged']:
                     raise MachineryError('evaluator could not judge a solved object: %s' % ev.get('why'))
                 eqc = 'within' if ev['eq'] <= 1.0 else 'beyond'
